@@ -1,21 +1,29 @@
 import BufModel.Bucket
 import BufModel.Disk
+import BufModel.Archive
 import Driver.Util
 import Driver.Bucket
 /-
   Line protocol for C14 (composite buckets over several bases):
     hist2 <TAB> expr <TAB> nbases <TAB> ops
       expr : ':'-separated prefix notation: b:<i> | pre:<hex>:<expr> | filt:<matcher>:<expr>
-             | multi:<expr>:<expr> | ovl:<expr>:<expr>       (matcher as in Driver.Bucket)
+             | multi:<expr>:<expr> | ovl:<expr>:<expr> | strip:<expr>   (matcher as in Driver.Bucket)
       ops  : ';'-separated. reads on the composite: g:<hex> s:<hex> w:<hex>;
              writes on base i: p:<i>:<hex>:<content> d:<i>:<hex> D:<i>:<hex>;
              C:<j> = copy everything readable through the composite into base j
              (storage.Copy, Tar→Untar and Zip→Unzip all have this net effect)
     output: results joined by ';' then for every base '|' + its sorted dump.
-  Path-function lines of Driver.C13 are accepted too.
+    Functions run: rGet, rWalkD, basePut/baseDelete/baseDeleteAll, copyD (BufModel.Disk) — tied to
+    rWalk / rCopy / the memory bucket by rWalkD_ok, rWalkD_of_rWalk_ok, copyD_refines_rCopy,
+    disk_refines_map (Props/C14).
+    arc <TAB> tar|zip <TAB> strip <TAB> matcher|- <TAB> maxsize <TAB> expr <TAB> kinds <TAB> puts
+      output: "err" when Tar/Zip fails, else <entries of the archive, sorted>|<extract result>|<dump>
+      (tarOfSorted = tarOf on the bases in sorted walk order, extractInto of BufModel.Archive)
+    xtr <TAB> tar|zip <TAB> strip <TAB> matcher|- <TAB> maxsize <TAB> <hexname>:<r|d|o>:<content>,...
+      output: <extract result>|<dump>
 -/
 namespace Driver.C14
-open BufModel.Path BufModel.Bucket BufModel.Disk Driver Driver.Bucket
+open BufModel.Path BufModel.Bucket BufModel.Disk BufModel.Archive Driver Driver.Bucket
 
 partial def parseExpr : List String → Option (BExpr × List String)
   | "b" :: i :: r => i.toNat?.map fun n => (.base n, r)
@@ -35,6 +43,9 @@ partial def parseExpr : List String → Option (BExpr × List String)
       let (a, r1) ← parseExpr r
       let (b, r2) ← parseExpr r1
       pure (.overlay a b, r2)
+  | "strip" :: r => do
+      let (e, r') ← parseExpr r
+      pure (.strip e, r')
   | _ => none
 
 /-- driver state: per base, is it a disk bucket, and its tree (memory buckets use `files` only) -/
@@ -60,59 +71,34 @@ def stepOp (e : BExpr) (st : DState) (op : String) : DState × String :=
       | none => (st, "bad-op")
   | ["w", h] => match hexDecode h with
       | some p => (match rWalkD (st.map (·.1)) e bs (s2l p) with
-          | .ok objs => (st, "ok:" ++ dump objs) | .error er => (st, errS er))
+          | (objs, none) => (st, "ok:" ++ dump objs) | (_, some er) => (st, errS er))
       | none => (st, "bad-op")
   | ["p", i, h, c] => match i.toNat?, hexDecode h with
       | some n, some p =>
         let (isDisk, d) := st.getB n
-        let content := if c = "-" then "" else c
-        if isDisk then
-          (match diskPut d (s2l p) content with
-            | .ok d' => (st.setB n d', "ok") | .error er => (st, errS er))
-        else
-          (match memPut d.files (s2l p) content with
-            | .ok m' => (st.setB n { d with files := m' }, "ok") | .error er => (st, errS er))
+        (match basePut isDisk d (s2l p) (if c = "-" then "" else c) with
+          | .ok d' => (st.setB n d', "ok") | .error er => (st, errS er))
       | _, _ => (st, "bad-op")
   | ["d", i, h] => match i.toNat?, hexDecode h with
       | some n, some p =>
         let (isDisk, d) := st.getB n
-        if isDisk then
-          (match diskDelete d (s2l p) with
-            | .ok d' => (st.setB n d', "ok") | .error er => (st, errS er))
-        else
-          (match memDelete d.files (s2l p) with
-            | .ok m' => (st.setB n { d with files := m' }, "ok") | .error er => (st, errS er))
+        (match baseDelete isDisk d (s2l p) with
+          | .ok d' => (st.setB n d', "ok") | .error er => (st, errS er))
       | _, _ => (st, "bad-op")
   | ["D", i, h] => match i.toNat?, hexDecode h with
       | some n, some p =>
         let (isDisk, d) := st.getB n
-        if isDisk then
-          (match diskDeleteAll d (s2l p) with
-            | .ok d' => (st.setB n d', "ok") | .error er => (st, errS er))
-        else
-          (match memDeleteAll d.files (s2l p) with
-            | .ok m' => (st.setB n { d with files := m' }, "ok") | .error er => (st, errS er))
+        (match baseDeleteAll isDisk d (s2l p) with
+          | .ok d' => (st.setB n d', "ok") | .error er => (st, errS er))
       | _, _ => (st, "bad-op")
   | ["C", j] => match j.toNat? with
       | some n =>
-        -- the copy target is written object by object; on a disk target every put obeys the tree
         -- Copy, Tar→Untar and Zip→Unzip meet the first error at different moments (Copy lists all
         -- paths first, the archivers read while walking), so only "an error" is compared
-        (match rWalkD (st.map (·.1)) e bs [] with
-          | .error _ => (st, "err")
-          | .ok objs =>
-            let (isDisk, d0) := st.getB n
-            let res := objs.foldl (fun (acc : Except PErr Disk) kv =>
-              match acc with
-              | .error er => .error er
-              | .ok d =>
-                if isDisk then diskPut d kv.1 kv.2
-                else match memPut d.files kv.1 kv.2 with
-                  | .ok m' => .ok { d with files := m' }
-                  | .error er => .error er) (.ok d0)
-            match res with
-            | .ok d' => (st.setB n d', "ok:" ++ toString objs.length)
-            | .error _ => (st, "err"))
+        let (isDisk, d0) := st.getB n
+        (match copyD (st.map (·.1)) e bs isDisk d0 with
+          | .ok (cnt, d') => (st.setB n d', "ok:" ++ toString cnt)
+          | .error _ => (st, "err"))
       | none => (st, "bad-op")
   | _ => (st, "bad-op")
 
@@ -133,8 +119,74 @@ def handleHist2 (expr nb ops : String) : String :=
     ";".intercalate outs.reverse ++ String.join ((List.range kinds.length).map fun i => "|" ++ dump (st.getB i).2.files)
   | _, _ => "bad-op"
 
+/-! ### Archive lines -/
+
+def kindS : EKind → String
+  | .reg => "r" | .dir => "d" | .other => "o"
+
+def parseKind : String → Option EKind
+  | "r" => some .reg | "d" => some .dir | "o" => some .other | _ => none
+
+def parseFmt : String → Option Fmt
+  | "tar" => some .tar | "zip" => some .zip | _ => none
+
+def parseMatcherField (s : String) : Option (Str → Bool) :=
+  if s = "-" then some (fun _ => true) else
+  match parseMatcher (s.splitOn ":") with
+  | some (m, []) => some (fun p => m.matches p)
+  | _ => none
+
+/-- entries, sorted by hex name then kind/content (the listing order of the real archive is the
+    walk order, which for unions is member order: compared as a multiset) -/
+def dumpEntries (a : Archive) : String :=
+  let enc' := a.map fun e => (hexEncode (l2s e.name) ++ ":" ++ kindS e.kind, e.content)
+  ",".intercalate ((sortPairs enc').map fun (k, v) => k ++ "=" ++ v)
+
+def resS : Option PErr → String
+  | none => "ok"
+  | some er => errS er
+
+def parseEntry (s : String) : Option Entry :=
+  match s.splitOn ":" with
+  | [h, k, c] => do
+      let name ← hexDecode h
+      let kind ← parseKind k
+      pure { name := s2l name, content := (if c = "-" then "" else c), kind := kind }
+  | _ => none
+
+/-- arc: build the bases with puts, Tar/Zip the composite (`tarOf`), extract into an empty memory
+    bucket (`extractInto`). -/
+def handleArc (fmt strip matcher maxSize expr nb puts : String) : String :=
+  match parseFmt fmt, strip.toNat?, parseMatcherField matcher, maxSize.toNat?,
+        parseExpr (expr.splitOn ":"), parseKinds nb with
+  | some f, some n, some m, some mx, some (e, []), some kinds =>
+    let st0 : DState := kinds.map fun k => (k, BufModel.Disk.empty)
+    let opsL := if puts = "-" then [] else puts.splitOn ";"
+    let st := opsL.foldl (fun (acc : DState) op => (stepOp e acc op).1) st0
+    match tarOfSorted e st.bases with
+    | .error _ => "err"
+    | .ok a =>
+      let (res, dest) := extractInto f n m mx a []
+      dumpEntries a ++ "|" ++ resS res ++ "|" ++ dump dest
+  | _, _, _, _, _, _ => "bad-op"
+
+/-- xtr: extract a given entry list (hostile names, directories, symlinks) into an empty memory
+    bucket. -/
+def handleXtr (fmt strip matcher maxSize entries : String) : String :=
+  match parseFmt fmt, strip.toNat?, parseMatcherField matcher, maxSize.toNat? with
+  | some f, some n, some m, some mx =>
+    let es := if entries = "-" then some [] else (entries.splitOn ",").mapM parseEntry
+    match es with
+    | none => "bad-op"
+    | some a =>
+      let (res, dest) := extractInto f n m mx a []
+      resS res ++ "|" ++ dump dest
+  | _, _, _, _ => "bad-op"
+
 def handle : List String → String
   | ["hist2", expr, nb, ops] => handleHist2 expr nb ops
+  | ["arc", fmt, strip, matcher, maxSize, expr, nb, puts] => handleArc fmt strip matcher maxSize expr nb puts
+  | ["xtr", fmt, strip, matcher, maxSize, entries] => handleXtr fmt strip matcher maxSize entries
   | _ => "bad-op"
 
 def run : IO Unit := runLines handle
